@@ -701,6 +701,11 @@ fn decode_meta(t: &mut Tape) -> MetaCase {
     for _ in 0..t.pick(5) {
         match t.pick(6) {
             0 => s.push_str(&format!("! Title: {}\n", gen::word(t))),
+            1 if t.chance(1, 2) => {
+                // amounts around every integer width and the multiplications a parser may perform
+                let n = t.choose(&["0", "1", "14", "15", "336", "337", "255", "256", "2730", "2731", "2745", "5461", "10923", "65535", "65536", "89478485", "4294967295", "4294967296", "18446744073709551616", "-1", "+5", "3.5", "1e3", "০১", ""]);
+                s.push_str(&format!("! Expires:{}{} {}\n", t.choose(&[" ", "", "  "]), n, t.choose(&["days", "hours", "day", "hour", "weeks", "", "days (update frequency)"])));
+            }
             1 => s.push_str(&format!("! Expires: {} {}\n", t.pick(400), t.choose(&["days", "hours", "day", "hour", "weeks", ""]))),
             2 => s.push_str("[Adblock Plus 2.0]\n"),
             3 => s.push_str(&format!("! Homepage: https://{}/\n", gen::word(t))),
@@ -725,7 +730,7 @@ fn decode_meta(t: &mut Tape) -> MetaCase {
 }
 
 pub fn check(ctx: &mut Ctx) {
-    ctx.rule = "mutate: for each seed rule (one per distinct shape harvested from the lists under /repo/data + 60 hand-written exotic rules) EVERY char offset x 28 inserted/replaced strings (multi-byte chars, U+2028, combining mark, NUL, TAB, '$ # | , ~ * \\ ( )' ...) + every prefix/suffix; lines: random splices of rule fragments, option keywords and arbitrary code points. Each line goes through parse_filter (2 formats x 3 rule-type options x debug x permission byte), NetworkFilter::parse, CosmeticFilter::parse, parse_hosts_style, read_list_metadata, FilterSet::add_filter[_list], and, when it parses, ids/tokens/matching, engine build (optimise on/off), network/csp/cosmetic queries and a serialize round trip: nothing may panic. independence: list + injected lines that the parser rejects individually => identical serialized engine (also with the list's own rejected lines deleted, and through add_filter_list with LF/CRLF). hosts-eq: hosts entry vs '||host^' (incl. '#' comments glued to the name, names of up to 130 labels, bogus xn-- labels). multi-call: 2-4 add_filters calls on ONE FilterSet with different formats / rule-type options / permissions over a shared pool of lines (so the same text arrives under several options) vs the same calls with each call's individually rejected lines deleted. rule-types: NetworkOnly/CosmeticOnly engines vs engines of the lines of one kind (standard format), and a hosts file built from the request hosts loaded with CosmeticOnly (must be empty) / NetworkOnly (must equal the plain load). meta: header blocks with multi-byte chars straddling byte 1024. Non-trivial (mutate/lines) = mutated line that still parses or is rejected by a rule parser rather than by kind detection.".into();
+    ctx.rule = "mutate: for each seed rule (one per distinct shape harvested from the lists under /repo/data + 60 hand-written exotic rules) EVERY char offset x 28 inserted/replaced strings (multi-byte chars, U+2028, combining mark, NUL, TAB, '$ # | , ~ * \\ ( )' ...) + every prefix/suffix; lines: random splices of rule fragments, option keywords and arbitrary code points. Each line goes through parse_filter (2 formats x 3 rule-type options x debug x permission byte), NetworkFilter::parse, CosmeticFilter::parse, parse_hosts_style, read_list_metadata, FilterSet::add_filter[_list], and, when it parses, ids/tokens/matching, engine build (optimise on/off), network/csp/cosmetic queries and a serialize round trip: nothing may panic. independence: list + injected lines that the parser rejects individually => identical serialized engine (also with the list's own rejected lines deleted, and through add_filter_list with LF/CRLF). hosts-eq: hosts entry vs '||host^' (incl. '#' comments glued to the name, names of up to 130 labels, bogus xn-- labels). multi-call: 2-4 add_filters calls on ONE FilterSet with different formats / rule-type options / permissions over a shared pool of lines (so the same text arrives under several options) vs the same calls with each call's individually rejected lines deleted. rule-types: NetworkOnly/CosmeticOnly engines vs engines of the lines of one kind (standard format), and a hosts file built from the request hosts loaded with CosmeticOnly (must be empty) / NetworkOnly (must equal the plain load). meta: header blocks with multi-byte chars straddling byte 1024 and `Expires` amounts around every integer width. Non-trivial (mutate/lines) = mutated line that still parses or is rejected by a rule parser rather than by kind detection.".into();
     ctx.assumptions = vec!["hosts equivalence is asserted for hosts spelled in lower case (upper-case hosts only for totality)".into()];
     let all_seeds = seeds(ctx.tier.pick(400, 1500));
     let n_seeds = all_seeds.len() as u64;
